@@ -212,8 +212,28 @@ class Recompiler:
         # corresponding fields having an empty name.  Empty names are
         # recognized at runtime when we import the generated Python
         # file.
-        expand_anonymous_struct_union = not self.target_is_python
-        return tp.enumfields(expand_anonymous_struct_union)
+        # Exception: a nested anonymous struct/union that contains bitfields
+        # is kept as it is too.  The position of a bitfield cannot be asked
+        # to the C compiler, it is computed at runtime from the preceding
+        # fields; that only gives the right answer if the bitfield stays
+        # inside its own struct or union.
+        for fld in tp.enumfields(False):
+            fldname, fldtype = fld[0], fld[1]
+            if (fldname == '' and isinstance(fldtype, model.StructOrUnion)
+                    and not self.target_is_python
+                    and not self._keep_anonymous_nested(fldtype)):
+                for fld1 in self._enum_fields(fldtype):
+                    yield fld1
+            else:
+                yield fld
+
+    def _keep_anonymous_nested(self, tp):
+        if tp.partial or tp.fldtypes is None:
+            return False    # must be expanded: it has no layout of its own
+        for _, fldtype, fbitsize, _ in tp.enumfields():
+            if fbitsize >= 0:
+                return True
+        return False
 
     def _do_collect_type(self, tp):
         if not isinstance(tp, model.BaseTypeByIdentity):
@@ -880,6 +900,8 @@ class Recompiler:
                         prnt("  (void)((p->%s) | 0);  /* check that '%s.%s' is "
                              "an integer */" % (fname, cname, fname))
                     continue
+                if fname == '':
+                    continue    # nested anonymous struct/union kept as it is
                 # only accept exactly the type declared, except that '[]'
                 # is interpreted as a '*' and so will match any array length.
                 # (It would also match '*', but that's harder to detect...)
@@ -938,7 +960,7 @@ class Recompiler:
                 if fbitsize >= 0:
                     op = OP_BITFIELD
                     size = '%d /* bits */' % fbitsize
-                elif cname is None or (
+                elif cname is None or fldname == '' or (
                         isinstance(fldtype, model.ArrayType) and
                         fldtype.length is None):
                     size = '(size_t)-1'
@@ -947,7 +969,7 @@ class Recompiler:
                         tp.get_c_name('*') if named_ptr is None
                                            else named_ptr.name,
                         fldname)
-                if cname is None or fbitsize >= 0:
+                if cname is None or fbitsize >= 0 or fldname == '':
                     offset = '(size_t)-1'
                 elif named_ptr is not None:
                     offset = '(size_t)(((char *)&((%s)4096)->%s) - (char *)4096)' % (
